@@ -29,16 +29,16 @@ PROPS = {
         ("miri", dict(runner="racefam", mode="seeds", seeds_quick=16, seeds_thorough=256, canary="canary_race")),
         ("tsan", dict(runner="racefam", thorough_only=True)),
     ]),
-    "C03": dict(level="exploration", lanes=[("hlmon", dict(runner="seqfam")), ("hlmon", dict(runner="blockfam")), ("hlmon", dict(runner="tuplefam")), ("hlmon", dict(runner="faultfam")), CONC]),
+    "C03": dict(level="exploration", lanes=[("hlmon", dict(runner="seqfam")), ("hlmon", dict(runner="blockfam")), ("hlmon", dict(runner="tuplefam")), ("hlmon", dict(runner="faultfam")), ("hlmon", dict(runner="conc_fault")), CONC]),
     "C04": dict(level="exploration", lanes=[("hlmon", dict(runner="tryfam")), ("hlmon", dict(runner="blockfam")), ("hlmon", dict(runner="tuplefam")), ("hlmon", dict(runner="poisonfam")), CONC]),
-    "C05": dict(level="exploration", lanes=[CONC, ("hlmon", dict(runner="seqfam")), ("hlmon", dict(runner="tryfam")), ("hlmon", dict(runner="blockfam")), ("hlmon", dict(runner="tuplefam")), ("hlmon", dict(runner="conc_panic"))]),
+    "C05": dict(level="exploration", lanes=[CONC, ("hlmon", dict(runner="seqfam")), ("hlmon", dict(runner="tryfam")), ("hlmon", dict(runner="blockfam")), ("hlmon", dict(runner="tuplefam")), ("hlmon", dict(runner="conc_panic")), ("hlmon", dict(runner="faultfam")), ("hlmon", dict(runner="conc_fault"))]),
     "C06": dict(level="exploration", lanes=[("hlmon", dict(runner="keyfam"))]),
     "C07": dict(level="exploration", lanes=[("hlmon", dict(runner="dupfam")), ("corpus", dict()), ("matrix", dict())]),
     "C08": dict(level="exploration", lanes=[("hlmon", dict(runner="orderfam")), ("hlmon", dict(runner="ownedconc"))]),
     "C09": dict(level="exploration", lanes=[("hlmon", dict(runner="conc_retry")), ("hlmon", dict(runner="blockfam"))]),
     "C10": dict(level="exploration", lanes=[("hlmon", dict(runner="poisonfam")), ("hlmon", dict(runner="poisonsoak")), ("hlmon", dict(runner="conc_panic"))]),
     "C11": dict(level="fault_enumeration", lanes=[("hlmon", dict(runner="panicfam")), ("hlmon", dict(runner="conc_panic")), ("hlmon", dict(runner="seqfam"))]),
-    "C12": dict(level="fault_enumeration", lanes=[("hlmon", dict(runner="faultfam"))]),
+    "C12": dict(level="fault_enumeration", lanes=[("hlmon", dict(runner="faultfam")), ("hlmon", dict(runner="conc_fault"))]),
     "C13": dict(level="exploration", lanes=[("hlmon", dict(runner="tryfam")), ("hlmon", dict(runner="tuplefam"))]),
     "C14": dict(level="other", lanes=[("corpus", dict()), ("matrix", dict()), ("hlmon", dict(runner="keyfam"))],
                 explanation="Compile-gated execution. The statement quantifies over programs the compiler must reject; a monitor cannot observe a program that does not exist, so each escape route is attempted: rustc's verdict on a minimal offending program (with a compiling, running twin that differs only in the offending line) decides acceptance, and every offending program that is accepted is executed and has to demonstrate the harm itself (WITNESS line; Miri report in the thorough tier). The KeyModel lane (C06 histories) shows at run time that the accepted API surface never yields two usable keys. The universal quantifier is sampled by the corpus of known escape shapes - a new shape is invisible to it."),
